@@ -351,6 +351,7 @@ theorem nextItem_enc (c : Cfg) (s : St) : (nextItem c s).2.enc = s.enc := by
   | cons x r =>
     cases x with
     | ses y => rfl
+    | sesGone y => rfl
     | other => rfl
     | fail b => cases b with
       | true => simp [markEof_enc, St.log]
@@ -378,6 +379,7 @@ theorem recvViaReceiver_CA (c : Cfg) (fuel : Nat) : ∀ s, CA s → CA (recvViaR
       · exact setState_CA _ _ hq
       · split <;> exact hq
     · exact ih _ hq
+    · exact hq
     · exact hq
 
 theorem receiveSession_CA (c : Cfg) (s : St) (h : CA s) : CA (receiveSession c s).2 := by
@@ -525,6 +527,7 @@ theorem recvViaReceiver_NC (c : Cfg) (fuel : Nat) : ∀ s, NC s → NC (recvViaR
       · exact NC_step _ _ (.setState _) rfl hq (by intros; simp) (by intro a b hab; cases hab)
       · split <;> exact hq
     · exact ih _ hq
+    · exact hq
     · exact hq
 
 theorem recvFromServer_NC (c : Cfg) (s : St) (h : NC s) : NC (recvFromServer c s).2 := by
